@@ -82,7 +82,8 @@ def e2e_case(rng):
                 n = t[2]
                 if n in annots:
                     d = g.nodes[n]
-                    txt = M.atom_text(d, d['hcount'], bracket=True)
+                    # the documentation writes annotated atoms without a hydrogen count ([C;0.5]); hydrogens are recomputed
+                    txt = M.atom_text(d, d['hcount'] if rng.random() < 0.5 else 0, bracket=True)
                     toks.append(('atom', txt[:-1] + ';' + annots[n][0] + ']', n))
                 else:
                     toks.append(t)
